@@ -420,6 +420,11 @@ func (v *Verifier) ghostField(t types.Type, name string) *GhostField {
 	if gf, ok := v.db.Ghost[tn+"."+name]; ok {
 		return gf
 	}
+	if alias, ok := v.db.GhostAlias[tn]; ok {
+		if gf, ok := v.db.Ghost[alias+"."+name]; ok {
+			return gf
+		}
+	}
 	// a value of another interface type (io.Reader, io.Writer) denotes the same object: ghost fields
 	// declared on an interface owner apply to every interface-typed view of it
 	if types.IsInterface(t) {
@@ -430,6 +435,16 @@ func (v *Verifier) ghostField(t types.Type, name string) *GhostField {
 		}
 	}
 	return nil
+}
+
+// ghostOwner: ghost state is keyed by interface values; a pointer (e.g. *bytes.Reader) denotes
+// the interface value that boxes it.
+func (e *Exec) ghostOwner(s *State, owner Value, ot types.Type) *Node {
+	on := owner.(*Node)
+	if on.Sort == "Iface" {
+		return on
+	}
+	return e.box(s, on, ot)
 }
 
 func ghostHeapName(gf *GhostField) string { return "G:" + gf.Owner + "." + gf.Name }
@@ -671,9 +686,9 @@ func (e *Exec) ghostValSort(gf *GhostField) string {
 
 func (c *SpecCtx) ghostFieldRead(owner Value, ot types.Type, gf *GhostField) (Value, types.Type) {
 	e := c.e
-	on := owner.(*Node)
+	on := e.ghostOwner(c.st, owner, ot)
 	name := ghostHeapName(gf)
-	h := e.heap(c.st, name, e.ghostHeapSort(gf, on.Sort))
+	h := e.heap(c.st, name, e.ghostHeapSort(gf, "Iface"))
 	v := Select(h, on)
 	switch gf.Type {
 	case "int":
@@ -842,7 +857,7 @@ func (e *Exec) frameObligations(ret, entry *State, fc *FuncContract) {
 			ctx := &SpecCtx{e: e, st: entry, old: entry, vars: map[string]specVar{}, pkg: e.pkgTypes()}
 			v, t := ctx.eval(n)
 			if gf := e.v.ghostField(t, fld); gf != nil {
-				allowedAt[ghostHeapName(gf)] = append(allowedAt[ghostHeapName(gf)], v.(*Node))
+				allowedAt[ghostHeapName(gf)] = append(allowedAt[ghostHeapName(gf)], e.ghostOwner(entry, v, t))
 				continue
 			}
 			if st, isPtr := structOf(t); st != nil && isPtr {
@@ -906,7 +921,11 @@ func (e *Exec) initGhosts(s *State) {
 			ctx := &SpecCtx{e: e, st: s, old: s, vars: map[string]specVar{}, pkg: e.pkgTypes()}
 			t := ctx.resolveTypeName(f[2])
 			e.ghostT[f[1]] = t
-			s.ghost[f[1]] = e.zeroValue(t)
+			if g, ok := t.(*ghostArrT); ok {
+				s.ghost[f[1]] = TS.Fresh("ghost_"+f[1], arraySort(e.mode.idxSort(), e.mode.intSort(g.elem)))
+			} else {
+				s.ghost[f[1]] = e.zeroValue(t)
+			}
 		}
 	}
 }
